@@ -1,7 +1,8 @@
 SPECIFICATION Spec
 CONSTANTS
   MaxOps = 4
-  SplitPairs = FALSE
+  SplitPairs = TRUE
+  LocalRenameSource = FALSE
   StaleStat = FALSE
   B2B = TRUE
   WithRoot = TRUE
